@@ -420,3 +420,39 @@ M("C03-R6-V-negate-wraps-expansion", "C03", [(P, """        if negate {
             Ok(Some(expr)) if negate => Ok(Some(Self::negate_expr_op(&expr))),
             other => other,
         }""")], kind="variant")
+
+# ---------------------------------------------------------------- variants pinning the rules of the seventh seed wave
+M("C20-R3-V-anchor-admits-descendants", "C20", [("src/ignore/docker.rs", """    pattern = regex::escape(&path).add("/([^/]+/)*").add(&pattern);""", """    pattern = regex::escape(&path).add("/([^/]+/)*").add(&pattern).add("(/|$)");""")], kind="variant")
+M("C18-R3-V-insert-nested-if", "C18", [(S, """        if self.current_follow_symlinks
+            && !self.visited_dirs.insert(PathBuf::from(&canonical_path))
+        {
+            return Ok(());
+        }""", """        if self.current_follow_symlinks {
+            let first_visit = self.visited_dirs.insert(PathBuf::from(&canonical_path));
+            if !first_visit {
+                return Ok(());
+            }
+        }""")], kind="variant")
+M("X-BRACKETS-V-closing-by-mode", "C11", [(P, """                Some(lexem)
+                    if (lexem == Lexem::Close && !curly_mode)
+                        || (lexem == Lexem::CurlyClose && curly_mode) =>
+                {""", """                Some(lexem)
+                    if lexem == (if curly_mode { Lexem::CurlyClose } else { Lexem::Close }) =>
+                {""")], kind="variant")
+M("X-OPERANDS-V-named-fresh-map", "C14", [(S, """            let field_value = self.get_column_expr_value(
+                Some(entry),
+                file_info,
+                &mut HashMap::new(),
+                None,
+                expr.left.as_ref().unwrap(),
+            );""", """            let mut left_values = HashMap::new();
+            let field_value = self.get_column_expr_value(
+                Some(entry),
+                file_info,
+                &mut left_values,
+                None,
+                expr.left.as_ref().unwrap(),
+            );""")], kind="variant")
+M("C02-R3-V-op-from-two-arms", "C02", [(O, """"=" | "==" | "eq" => Some(Op::Eq),""", """"=" | "==" => Some(Op::Eq),
+            "eq" => Some(Op::Eq),""")], kind="variant")
+M("X-NAMES-column-alias-is-function", "C16", [("src/field.rs", """"mp3_year" => Ok(Field::Year),""", """"mp3_year" | "year" => Ok(Field::Year),""")], ["names_overlap"])
